@@ -26,6 +26,7 @@ RULE = ("stream 'chunking': random sequences of non-empty frames (1 B..>64 KiB, 
 RULE += (' Payloads made of length-prefixed records (a piece of a frame that is itself a well-formed frame), read in pieces ending at the inner boundaries.')
 RULE += (' Streams of 1100-5000 small frames in one read.')
 RULE += (" stream 'switch': raw chunks while framing is off, then framing on and a framed stream on the same connection.")
+RULE += (" stream 'phases': the switch moves 2-6 times within one connection (incl. the login order of an account with routing information): payloads written and chunks received in every stretch, against the model per stretch (C05_any_sequence_of_switches).")
 ASSUMPTIONS = ["CPython bytearray slicing/extend semantics", "struct.pack/unpack '>I'",
                "the lower layer delivers chunks sequentially (one network thread)"]
 EXHAUSTIVE = {"thorough": False}
@@ -90,6 +91,22 @@ def cases(chk):
         frames = [bytes(r.randrange(256) for _ in range(r.choice([1, 2, 5, 40, 300]))).hex() for _i in range(r.randint(1, 4))]
         total = sum(3 + len(f) // 2 for f in frames)
         yield "switch", {"raw": raw if i % 7 else [], "frames": frames, "cuts": sorted(set(r.randint(1, max(1, total - 1)) for _ in range(r.choice([0, 1, 2, 5]))))}
+    # the switch moves several times within one connection — the login of an account with routing information writes a raw header, the routing
+    # information framed, the raw prologue, and then frames; what arrives meanwhile follows the switch as well
+    def _phase(on):
+        if on:
+            frames = [bytes(r.randrange(256) for _ in range(r.choice([1, 2, 5, 40, 300]))).hex() for _i in range(r.randint(1, 3))]
+            total = sum(3 + len(f) // 2 for f in frames)
+            return {"on": 1, "out": [r.choice([1, 4, 30, 300]) for _i in range(r.choice([0, 1, 2]))], "frames": frames,
+                    "cuts": sorted(set(r.randint(1, max(1, total - 1)) for _ in range(r.choice([0, 1, 2, 4]))))}
+        return {"on": 0, "out": [r.choice([1, 4, 30]) for _i in range(r.choice([0, 1, 2]))],
+                "raw": [bytes(r.randrange(256) for _ in range(r.choice([1, 3, 4, 5, 33]))).hex() for _i in range(r.choice([0, 1, 2]))]}
+    yield "phases", {"phases": [{"on": 0, "out": [4], "raw": []}, {"on": 1, "out": [40], "frames": [], "cuts": []}, {"on": 0, "out": [4], "raw": []},
+                                {"on": 1, "out": [30, 300], "frames": ["0709", "aa" * 40], "cuts": [2, 9]}]}
+    yield "phases", {"phases": [{"on": 1, "out": [], "frames": ["01"], "cuts": []}, {"on": 0, "out": [], "raw": ["0000015741"]}, {"on": 1, "out": [], "frames": ["02"], "cuts": [1]}]}
+    for i in range(chk.scale(40, 800)):
+        first = r.choice([0, 1])
+        yield "phases", {"phases": [_phase((first + j) % 2) for j in range(r.randint(2, 6))]}
     for n in sorted(set([0, 1, 2, 255, 256, 65535, 65536, (1 << 24) - 1, 1 << 24, (1 << 24) + 1]
                         + [v + d for v in chk.lits for d in (-1, 0, 1) if v + d >= 0])):
         yield "send", {"len": n, "enabled": 1}
@@ -427,6 +444,39 @@ def run_case(chk, stream, case):
         if delivered != frames:
             fails.append(oracle("C05:recv-frames-differ", "%d raw chunk(s) received while framing was off, then framing switched on and %d frames (sizes %s) sent cut at %s: "
                                 "delivered sizes %s" % (len(raw), len(frames), [len(f) for f in frames][:8], cuts[:10], [len(d) for d in delivered][:8])))
+    elif stream == "phases":
+        ph = case["phases"]
+        layer, stack_, bottom, top = _mk(bool(ph[0]["on"]))
+        for k, p in enumerate(ph):
+            stack_.setProp(YowNoiseSegmentsLayer.PROP_ENABLED, bool(p["on"]))
+            chk.driver.ask("seg reset %d" % p["on"])      # every on-stretch of the script ends on a frame boundary: the model's buffer is empty here (C05_any_sequence_of_switches)
+            where = "stretch #%d of %d (framing %s; switch positions so far %s)" % (k + 1, len(ph), "on" if p["on"] else "off", [q["on"] for q in ph[:k + 1]])
+            for n in p["out"]:
+                payload = bytes(n)
+                del bottom.sent[:]
+                layer.send(payload)
+                ws = [bytes(w) for w in bottom.sent]
+                impl = "writes:" + ",".join(hexs(w) if len(w) <= 3 else str(len(w)) for w in ws)
+                model = chk.driver.ask("seg sendlen %d" % n)
+                if impl != model:
+                    fails.append(corr("phases:send", "%s: payload of %d bytes: impl=%s model=%s" % (where, n, impl, model)))
+                want = be24(n) + payload if p["on"] else payload
+                if b"".join(ws) != want:
+                    fails.append(oracle("C05:send-layout-after-switches", "%s: a payload of %d bytes was written as %s" % (where, n, hexs(b"".join(ws))[:60])))
+            del top.received[:]
+            if p["on"]:
+                frames = [bytes.fromhex(f) for f in p["frames"]]
+                data = b"".join(be24(len(f)) + f for f in frames)
+                delivered = _feed(chk, layer, top, _chunks(data, [c for c in p["cuts"] if 0 < c < len(data)]) if data else [], fails, "phases:framed")
+                if delivered != frames:
+                    fails.append(oracle("C05:recv-frames-differ", "%s: %d frames (sizes %s) sent cut at %s: delivered sizes %s"
+                                        % (where, len(frames), [len(f) for f in frames], p["cuts"], [len(d) for d in delivered][:8])))
+            else:
+                raw = [bytes.fromhex(c) for c in p["raw"]]
+                delivered = _feed(chk, layer, top, raw, fails, "phases:raw")
+                if delivered != raw:
+                    fails.append(oracle("C05:raw-bytes-altered", "%s: chunks %s were handed up as %s" % (where, [hexs(c) for c in raw], [hexs(d) for d in delivered][:6])))
+        chk.hit("phases:%d" % len(ph))
     elif stream == "send":
         n, en = case["len"], case["enabled"]
         layer, _stack, bottom, _top = _mk(bool(en))
